@@ -815,8 +815,8 @@ fn fmt_split(threads: usize, den: u64, mods: &[u64], ws: &[u64], perm: &[usize])
 
 pub fn generate(ctx: &mut Ctx) {
     // ---- exhaustive small sub-space: fixed pairwise-distinct layout, all weight vectors over {1,2,5}
-    let nmax = if ctx.quick() { 4 } else { 5 };
-    let ys = [2i64, 0, 4, 1, 3];
+    let nmax = if ctx.quick() { 5 } else { 6 };
+    let ys = [2i64, 0, 4, 1, 5, 3];
     let alphabet = [1u64, 2, 5];
     for n in 1..=nmax {
         let coords: Vec<i64> = (0..n).flat_map(|i| [i as i64, ys[i]]).collect();
@@ -850,7 +850,7 @@ pub fn generate(ctx: &mut Ctx) {
     ));
 
     // ---- random mj cases inside the quantifier
-    let count = ctx.budget(2200, 18000);
+    let count = ctx.budget(12000, 150000);
     for _ in 0..count {
         let n = gen_n(ctx);
         let dim = 2 + ctx.rng.usize(2);
@@ -871,7 +871,7 @@ pub fn generate(ctx: &mut Ctx) {
     }
 
     // ---- outside the property's quantifier (inside C01's): parts > n, zero weights, n = 0, max_iter 5..6
-    let count = ctx.budget(300, 2500);
+    let count = ctx.budget(1500, 15000);
     for _ in 0..count {
         let kind = ctx.rng.usize(6);
         let mut n = gen_n(ctx).min(120);
@@ -932,7 +932,7 @@ pub fn generate(ctx: &mut Ctx) {
     }
 
     // ---- direct: compute_split_positions
-    let count = ctx.budget(600, 5000);
+    let count = ctx.budget(4000, 40000);
     for _ in 0..count {
         let big = ctx.rng.chance(1, 10);
         let np = match ctx.rng.usize(10) {
@@ -1008,14 +1008,14 @@ pub fn generate(ctx: &mut Ctx) {
     }
 
     // ---- direct: partition_scheme
-    let (pmax, mmax) = if ctx.quick() { (150usize, 4usize) } else { (400, 6) };
+    let (pmax, mmax) = if ctx.quick() { (250usize, 4usize) } else { (400, 6) };
     for parts in 1..=pmax {
         for maxiter in 1..=mmax {
             run_op(ctx, &format!("scheme {} {}", parts, maxiter));
         }
     }
     for _ in 0..ctx.budget(40, 400) {
-        let parts = 151 + ctx.rng.usize(4850);
+        let parts = 251 + ctx.rng.usize(4750);
         let maxiter = 2 + ctx.rng.usize(3);
         run_op(ctx, &format!("scheme {} {}", parts, maxiter));
     }
@@ -1029,7 +1029,7 @@ pub fn generate(ctx: &mut Ctx) {
     ));
 
     // ---- direct: split_at_mut_many
-    for _ in 0..ctx.budget(300, 3000) {
+    for _ in 0..ctx.budget(1000, 10000) {
         let len = ctx.rng.usize(40);
         let k = ctx.rng.usize(7);
         let mut pos: Vec<usize> = (0..k).map(|_| ctx.rng.usize(len + 1)).collect();
@@ -1043,7 +1043,7 @@ pub fn generate(ctx: &mut Ctx) {
     }
 
     // ---- direct: axis_sort
-    for _ in 0..ctx.budget(200, 2000) {
+    for _ in 0..ctx.budget(800, 8000) {
         let n = gen_n(ctx);
         let dim = 2 + ctx.rng.usize(2);
         let (coords, _) = gen_coords(ctx, n, dim);
